@@ -10,7 +10,8 @@ import subprocess
 import sys
 
 VERIF_ROOT = os.path.dirname(os.path.dirname(os.path.abspath(__file__)))
-DEPS = os.path.join(VERIF_ROOT, ".deps")
+# one directory per interpreter version: the wheels are version specific
+DEPS = os.path.join(VERIF_ROOT, ".deps", "cp%d%d" % sys.version_info[:2])
 WHEELS = "/opt/veriftools/wheels"
 
 
@@ -34,13 +35,15 @@ def _install(pkg):
 
 
 def ensure(extra=()):
+    # after everything the interpreter already has: never shadow a working
+    # installation
     if os.path.isdir(DEPS) and DEPS not in sys.path:
-        sys.path.insert(0, DEPS)
+        sys.path.append(DEPS)
     for mod, pkg in (("hypothesis", "hypothesis"),) + tuple(extra):
         if not _have(mod):
             _install(pkg)
             if DEPS not in sys.path:
-                sys.path.insert(0, DEPS)
+                sys.path.append(DEPS)
             if not _have(mod):
                 raise RuntimeError("cannot provide %s offline" % pkg)
 
